@@ -98,7 +98,12 @@ def reexport_by_package_not_above():
     return _pkg("wfn", [home, user, filler], inits), {}
 
 
+def non_ascii_identifier():
+    f = Func("größe001", [Param("länge002", "pos", Ann("int"))], ret=Ann("int"))
+    return _pkg("wfo", [Module("wfo/mod_a.py", "wfo.mod_a", funcs=[f], classes=[Cls("Änderung003")])]), {}
+
+
 BUILDERS = {f.__name__: f for f in [enum_without_publicity_test, property_tuple_as_union, callable_attribute_untyped,
                                     none_result_suppresses_list, typevar_typed_attribute_dropped, private_class_as_type,
                                     nc_snake_case_class_reference, result_warn_always, stale_class_generics, rename_on_model, enum_name_not_converted, class_attribute_list_items_by_name, tuple_returns_equal_up_to_order,
-                                    reexport_by_package_not_above]}
+                                    reexport_by_package_not_above, non_ascii_identifier]}
